@@ -7,7 +7,7 @@ from ..trace import TraceWriter
 
 ASSUMPTIONS = [
     'TLAPS (tla/proofs/SessionProofs.tla, checked by tlapm on every run): ArgsUnchanged and SameAsFresh of Session.tla hold for ARBITRARY sets of entry points and objects and any number of calls when no entry point is impure',
-    "leg A: the session machine of tla/Session.tla with uninterpreted results: every history of <= 3 calls over 27 entry points; entry points that modify an argument (defect D5 before its repair) are a negative configuration",
+    "leg A: the session machine of tla/Session.tla with uninterpreted results: every history of <= 3 calls over 28 entry points; entry points that modify an argument (defect D5 before its repair) are a negative configuration",
     "leg C: TLC (-simulate) generates call histories of length 2, 4, 8 and 12; each is replayed on one shared argument set built from a seed",
     "'fresh interpreter state' is a child process forked from the harness before any modelling call of the history, in which the argument set is rebuilt from the same seed and the call is made first; results are compared through bit-exact digests (floats by repr), the comment strings carrying the wall-clock time are excluded",
 ]
@@ -33,7 +33,7 @@ TLAPS = [('SessionProofs.tla', ['Session.tla'])]
 
 def leg_a(ctx):
     return [{"spec": "MC_Session.tla", "cfg": "MC_Session.cfg", "coverage": True, "workers": 4,
-             "what": "all histories of <= 3 calls over 27 entry points"},
+             "what": "all histories of <= 3 calls over 28 entry points"},
             {"spec": "MC_Session.tla", "cfg": "MC_Session_neg_d5.cfg", "expect": "violates:ArgsUnchanged,SameAsFresh", "workers": 2},
             {"spec": "MC_SessionEdit.tla", "cfg": "MC_SessionEdit.cfg", "workers": 4,
              "what": "sessions in which the caller edits shared objects in place between calls (SessionEdit.tla): all histories of <= 5 steps"},
@@ -44,7 +44,7 @@ def leg_a(ctx):
 def run(ctx, pool):
     hs = []
     gen_states = 0
-    for n, num in ((2, ctx.n(10, 60)), (4, ctx.n(16, 120)), (8, ctx.n(16, 120)), (12, ctx.n(12, 100))):
+    for n, num in ((2, ctx.n(10, 60)), (4, ctx.n(16, 120)), (8, ctx.n(28, 120)), (12, ctx.n(24, 100))):
         r = tlc.run("MC_Session.tla", "MC_Session_sim%d.cfg" % n, workers=1, workdir=ctx.work,
                     extra=("-simulate", "num=%d" % num, "-depth", str(n + 2), "-seed", str(ctx.seed + n)))
         gen_states += r.generated
@@ -90,7 +90,7 @@ def run(ctx, pool):
     edit_calls = sum(1 for tr in tw.traces for e in tr if e.get("ev") == "EditSessCall" and e.get("edits_so_far", 0) > 0)
     res["coverage"] = {
         "evaluations": hist.get("SessCall", 0), "distinct_nontrivial": len({json.dumps(h) for h in hs}),
-        "rule": "call histories of length 2, 4, 8 and 12 over 27 modelling entry points (five of them failing calls or calls on a full-range grid with both pure end points) generated by TLC's simulator from Session.tla; each "
+        "rule": "call histories of length 2, 4, 8 and 12 over 28 modelling entry points (five of them failing calls or calls on a full-range grid with both pure end points) generated by TLC's simulator from Session.tla; each "
                 "replayed on one shared set of argument objects (built-in mixture, membrane, 1-2-curve set, conditions, measurement list); "
                 "every call's result digest compared with the digest from a forked pristine process; distinct = distinct histories",
         "tlc_generated_histories": len(hs), "tlc_generated_edit_histories": len(ehs), "calls_made_after_an_edit": edit_calls, "calls_per_entry": entries, "events": hist, "clauses": CLAUSES,
